@@ -132,6 +132,11 @@ def h_serial_history(ctx, which):
         return ",".join(labels[1::2])
 
 
+def _burst(ctx, which, n):
+    from harness.c19_deframe import h_burst
+    return h_burst(ctx, which, n)
+
+
 def h_subscriber_history(ctx, which, steps):
     """Every history of `steps` join/leave operations (solver-chosen), then one observed frame:
     exactly the queues subscribed at that time get exactly one copy."""
@@ -492,6 +497,7 @@ def cases(tier):
     for which in ("luba", "sci"):
         cs.append(Case("%s-subscriber-history" % which, h_subscriber_history, {"which": which, "steps": nsteps}))
         cs.append(Case("%s-history" % which, h_serial_history, {"which": which}))
+        cs.append(Case("%s-burst-80" % which, _burst, {"which": which, "n": 80}))
     cs.append(Case("callback-history", h_callback_history, {"steps": nsteps}))
     cs.append(Case("callback-reentrant", h_callback_reentrant, {"nsubs": 3 if tier == "quick" else 4}))
     inst = rigs.install_tridonic_structs
